@@ -1,6 +1,6 @@
 # coding: utf-8
 """C09 — the product records its provenance and is a complete GenBank record."""
-EXTRA_OBLIGATION_FILES = ("Props/C08_src.v",)
+EXTRA_OBLIGATION_FILES = ("Props/C08_src.v", "Props/C09_src.v",)
 
 from harness import annot, common, gens, pattern, recutil
 from harness.props import C08, C11
